@@ -179,7 +179,7 @@ def model_line(win, stream, date=None, msgid=None, comstate='40'):
     kv.append('date=%s' % hx(date or b''))
     kv.append('msgid=%s' % hx(msgid or b''))
     cuts = ','.join(str(x) for x in win.reads) if win.reads else '-'
-    return 'data %s | %s %s %s | %s' % (' '.join(kv), comstate, hx(stream), cuts, ' '.join(win.q))
+    return 'data %s | %s %s %s | %s' % (' '.join(kv), comstate.zfill(2 * ((len(comstate) + 1) // 2)), hx(stream), cuts, ' '.join(win.q))
 
 
 FIELDS = ['codes', 'rc', 'freed', 'accepted', 'died', 'desync', 'traceleft', 'openfds', 'errno', 'logsize', 'msg', 'env',
